@@ -85,6 +85,7 @@ std::vector<Event> g_trace;
 const void* g_q_in = nullptr;
 const void* g_q_out = nullptr;
 const void* g_q_work = nullptr;
+const void* g_cur_pool = nullptr;
 std::atomic<unsigned> g_epoch{0};
 std::atomic<int> g_next_worker_tid{200};
 std::atomic<int> g_next_other_tid{300};
@@ -561,11 +562,15 @@ std::string do_ref(const std::vector<std::string>& w) {
             if (!b) {
                 break;
             }
-            while (b.has_nested_buffers()) {
-                std::unique_ptr<osmium::memory::Buffer> nb{b.get_last_nested()};
-                dump_buffer_objects(*nb, out, n);
+            // unwind the chain of nested buffers WITHOUT Buffer::get_last_nested() (the function under
+            // test): the deepest buffer of the m_next_buffer chain is the oldest
+            std::vector<osmium::memory::Buffer*> chain;
+            for (osmium::memory::Buffer* p = &b; p; p = p->m_next_buffer.get()) {
+                chain.push_back(p);
             }
-            dump_buffer_objects(b, out, n);
+            for (auto it = chain.rbegin(); it != chain.rend(); ++it) {
+                dump_buffer_objects(**it, out, n);
+            }
         }
     } catch (const std::exception& e) {
         out += "ref-error " + class_of(e) + " " + e.what() + "\n";
@@ -671,6 +676,7 @@ void run_scenario(const std::string& line, const std::map<std::string, std::stri
         pool = &osmium::thread::Pool::default_instance();
     }
     g_q_work = &pool->m_work_queue;
+    g_cur_pool = pool;
 
     std::string path;
     if (src == "file") {
@@ -684,12 +690,15 @@ void run_scenario(const std::string& line, const std::map<std::string, std::stri
     const auto btype = bt == "single" ? osmium::io::buffers_type::single : osmium::io::buffers_type::any;
     const std::string file_format = (fmt == "mock" ? std::string{"json"} : fmt);
 
-    // give the pool workers time to reach their wait() (thread count must be stable)
+    // Jobs of an earlier scenario whose futures were dropped may still be queued in the pool: let
+    // them start before this scenario (a sentinel job is behind them in the FIFO work queue) ...
+    pool->submit([] { return 0; }).get();
+    // ... and give workers / exited threads time to settle: the thread count must be stable
     int threads_before = count_threads();
-    for (int i = 0; i < 50; ++i) {
-        std::this_thread::sleep_for(std::chrono::microseconds(200));
+    for (int i = 0, same = 0; i < 200 && same < 4; ++i) {
+        std::this_thread::sleep_for(std::chrono::microseconds(250));
         const int t = count_threads();
-        if (t == threads_before) break;
+        same = (t == threads_before) ? same + 1 : 0;
         threads_before = t;
     }
     const int fds_before = count_fds();
@@ -888,7 +897,7 @@ void run_scenario(const std::string& line, const std::map<std::string, std::stri
     outf(std::string{"MON no-data-after-error "} + (data_after_error ? "FAIL" : "ok") + " first_error=" + first_error_call + ":" + first_error);
     outf(std::string{"MON no-data-after-eof "} + (data_after_eof ? "FAIL" : "ok") + " -");
     outf(std::string{"MON no-data-after-close "} + (data_after_close ? "FAIL" : "ok") + " -");
-    outf(std::string{"MON threads-joined "} + (threads_after == threads_before ? "ok" : "FAIL") + " before=" + std::to_string(threads_before) + ",after=" + std::to_string(threads_after));
+    outf(std::string{"MON threads-joined "} + (threads_after <= threads_before ? "ok" : "FAIL") + " before=" + std::to_string(threads_before) + ",after=" + std::to_string(threads_after));
     outf(std::string{"MON fds-closed "} + (fds_after == fds_before ? "ok" : "FAIL") + " before=" + std::to_string(fds_before) + ",after=" + std::to_string(fds_after));
     if (dreads_at_close >= 0) {
         outf(std::string{"MON closed-reader-reads-nothing-more "} + (dreads_final - dreads_at_close <= 1 ? "ok" : "FAIL") + " at_close=" + std::to_string(dreads_at_close) + ",final=" + std::to_string(dreads_final));
@@ -912,7 +921,7 @@ extern "C" void osmium_verif_point(const char* tag, const void* obj, std::size_t
         return;
     }
     if (!std::strcmp(tag, "worker-got")) {
-        if (g_pool ? obj == g_pool.get() : true) {
+        if (obj == g_cur_pool) {
             log_event(tag, g_q_work, arg, -1);
         }
         return;
